@@ -29,7 +29,8 @@ func scaleFamiliesBuild() []*scaleFam {
 		{"a function of p parameters recursing d deep, with a parameter assigned from the recursive call", "C09"}, {"a function of p parameters recursing d deep, with a parameter assigned from the recursive call", "C20"},
 		{"a recursion d deep with e pending operators around the recursive call", "C20"}, {"a width and an argument of given lengths; two widths in a row", "C20"},
 		{"a call of n arguments whose k-th argument is itself a call", "C16"}, {"a for-in statement that walks a growing object of n keys twice", "C07"},
-		{"one name read through call paths that bind it at different distances", "C09"}} {
+		{"one name read through call paths that bind it at different distances", "C09"},
+		{"cases whose alternatives bind different names, subjects in every order", "C11"}} {
 		for _, f := range all {
 			if f.Name == also[0] {
 				g := *f
